@@ -619,6 +619,11 @@ impl World {
         let time_limit = start + limits.max_time;
         let mut index = 0;
 
+        // facts loaded before the run (or left by a run that already failed) count too
+        if self.facts.len() > limits.max_facts as usize {
+            return Err(Execution::RunLimit(crate::error::RunLimit::TooManyFacts));
+        }
+
         let res = loop {
             let mut new_facts = FactSet::default();
 
